@@ -253,6 +253,11 @@ func (e *Engine) visitInstr(fr *frame, instr ssa.Instruction) (ret bool) {
 		if symSize && int(capV) > e.maxAlloc {
 			e.maxAlloc = int(capV)
 		}
+		if v, ok := e.kv["__alloc_ceiling"]; ok && capV > v.(*sym.Term).SignedVal() {
+			msg := "engine: one allocation larger than the harness's ceiling (memory sized by an announced length, not by what arrived)"
+			e.covers["assert:"+msg] = true
+			e.Assert(e.T.Bool(false), msg, e.where(fr))
+		}
 		if capV > 1<<22 {
 			e.unsupported(fmt.Sprintf("allocation of %d elements", capV))
 		}
